@@ -54,7 +54,7 @@ CLAIMED = {
      text="Each simulated schedule is a legal execution and the edge set equals the memory model's, so every reported pair is a race Go's detector would report on that execution; untracked locations (locals, package variables, slices) can only be missed. One known finding (F-C12-1, unsynchronised Tags map of shared audit records) is matched by its write site and reported as KNOWN-FINDING; one race (F-C12-2) was repaired.",
      note="Go's own race detector cannot be used under the cooperative scheduler (its hand-offs would order everything). Logging at error level. The behavioural 'half-done' clause is covered through the race reports only.", ref="9 C12"),
  "C20": dict(level="exploration", tech=TECH + "audit trees produced by simulated runs with clock granularity 1ns/1ms/15ms and resumed histories; converted by the REAL scipipe CLI built from /repo; generated Bash script executed by the real bash with a native twin of the workload command",
-     text="The converter is a pure function and runs natively; simulation supplies the clock- and history-dependent inputs (shared start times, zero-time sources, shared ancestors, records loaded from disk). Listing completeness/uniqueness/order and byte-identical reproduction are checked per case. Two defects (F-C20-1, F-C20-2) were repaired.",
+     text="The converter is a pure function and runs natively; simulation supplies the clock- and history-dependent inputs (shared start times, zero-time sources, shared ancestors, records loaded from disk); one case in six converts a directly generated audit tree instead (listings only). Listing completeness/uniqueness/order and byte-identical reproduction are checked per case. Two defects (F-C20-1, F-C20-2) were repaired.",
      note="Native execution of the CLI and bash makes cases ~100x slower than pure simulation. Workflows keep their files in the working directory, as the statement requires.", ref="9 C20"),
  "C16": dict(level="exploration", tech=TECH + "generated graphs with one port left unconnected; RunTo/RunToRegex/RunToProcs with tape-chosen targets; oracle = reference closure vs execution trace",
      text="Refusal (exit!=0, empty trace) for unconnected ports and exact closure execution for RunTo are checked on sampled graphs and schedules.",
